@@ -24,7 +24,8 @@ impl IdmTxn {
 
 // ---- specification from the statement of C36 (OAuth2 half) ----
 pub open spec fn revoked(s: SessionState) -> bool { s is RevokedAt }
-pub open spec fn in_grace(ct: Duration, iat: i64) -> bool { ct.ns() < (iat as u64) as int * 1_000_000_000 + AUTH_TOKEN_GRACE_WINDOW.ns() }
+// "once the grace window has passed": the boundary instant itself is not decided by the statement, so the property clause allows it
+pub open spec fn in_grace(ct: Duration, iat: i64) -> bool { ct.ns() <= (iat as u64) as int * 1_000_000_000 + AUTH_TOKEN_GRACE_WINDOW.ns() }
 // an OAuth2 access token of account entry `e` may be honoured at ct only if ...
 pub open spec fn oauth2_usable(e: &Entry<EntrySealed, EntryCommitted>, session_id: Uuid, parent: Option<Uuid>, iat: i64, ct: Duration) -> bool {
     let o2 = e.oauth2sessions(Attribute::OAuth2Session);
